@@ -225,6 +225,56 @@ def xff_elements(chk, prog, cfg, rule, fn="humphrey::http::address::Address::fro
            f"adaptors on the element list: {keep}", cfg=cfg)
 
 
+def cookies(chk, prog, cfg):
+    """R7: cookies are the `;`-separated pieces of the Cookie field, each split at its first `=` and trimmed; get_cookie(name)
+    is the first of those whose name equals `name` as a whole string (humphrey-auth authenticates through it)."""
+    from . import c17
+    gc = prog.bodies.get("humphrey::http::request::Request::get_cookies")
+    g1 = prog.bodies.get("humphrey::http::request::Request::get_cookie")
+    chk.floor(f"get_cookies / get_cookie [{cfg}]", (1 if gc else 0) + (1 if g1 else 0), 2)
+    if not gc or not g1:
+        return
+    fam = [gc] + prog.all_closures_of(gc.path)
+    src = [(bb, blk, t) for bb in fam for blk, t in bb.calls_to(r"Headers::get$")]
+    ok = any(any(core.is_variant(a, "HeaderType", "Cookie") for a in [describe(prog, bb, x) for x in t["args"]]) for bb, blk, t in src)
+    chk.ob("R7.cookies", gc.path, "the list is read from the Cookie header field", ok, "", cfg=cfg)
+    sp = [(bb, blk, t) for bb in fam for blk, t in bb.calls_to(r"<impl str>::(split|splitn|rsplit|split_terminator|split_whitespace)$")]
+    chk.ob("R7.cookies", gc.path, "pairs are separated at every ';'", len(sp) == 1 and sp[0][2]["callee"].endswith("::split") and describe(prog, sp[0][0], sp[0][2]["args"][1]) == ("lit", 59),
+           f"{[(core.short(t['callee']), describe(prog, bb, t['args'][1])) for bb, blk, t in sp]}", cfg=cfg)
+    news = [(bb, blk, t) for bb in fam for blk, t in bb.calls_to(r"cookie::Cookie::new$")]
+    chk.floor(f"Cookie::new in get_cookies [{cfg}]", len(news), 1)
+    for bb, blk, t in news:
+        for idx, what in ((0, "name"), (1, "value")):
+            d = describe(prog, bb, t["args"][idx])
+            so = [c for c in desc_calls(d) if c[1].endswith("::split_once")]
+            first_eq = len(so) >= 1 and so[0][2][1] == ("lit", 61)
+            odd = sorted(set(c[1] for c in desc_calls(d) if not core.re.search(r"(::|>::)(trim|trim_start|trim_end|split_once|branch|deref|as_ref|as_str|borrow|to_string|to_owned|clone|into|from)$", c[1])))
+            half = desc_contains(d, lambda y: y[0] == "field" and y[2] == idx and desc_contains(y[1], lambda z: z[0] == "call" and z[1].endswith("::split_once")))
+            chk.ob("R7.cookies", gc.path, f"cookie {what} = trimmed {'left' if idx == 0 else 'right'} half of the pair split at its first '='", first_eq and half and not odd,
+                   f"{what} = {core.short(str(d))[:140]}; other transformations: {[core.short(x) for x in odd]}", where=bb.where(blk), cfg=cfg)
+    keep = [t["callee"].split("::")[-1] for bb in fam for blk, t in bb.calls_to(r"Iterator::(filter_map|filter|take|skip|take_while|skip_while|step_by|rev)$")]
+    chk.ob("R7.cookies", gc.path, "pieces are dropped only when they contain no '='", keep == ["filter_map"], f"adaptors: {keep}", cfg=cfg)
+    # get_cookie
+    finds = g1.calls_to(r"Iterator>::find$|Iterator::find$")
+    from_list = bool(finds) and desc_contains(describe(prog, g1, finds[0][1]["args"][0]), lambda y: y[0] == "call" and y[1].endswith("Request::get_cookies"))
+    rev = g1.calls_to(r"Iterator::rev$|Iterator::last$|Iterator::max_by|Iterator::min_by")
+    chk.ob("R7.cookie_lookup", g1.path, "get_cookie searches the list produced by get_cookies, front to back", from_list and len(finds) == 1 and not rev,
+           "get_cookie does not go through get_cookies(): the two can disagree (e.g. a substring search matches `XToken=..` for `Token`)", cfg=cfg)
+    d0 = describe(prog, g1, 0)
+    chk.ob("R7.cookie_lookup", g1.path, "get_cookie returns what find() returned", d0[0] == "call" and d0[1].endswith("::find"), f"{core.short(str(d0))[:120]}", cfg=cfg)
+    st = prog.structs.get("humphrey::http::cookie::Cookie", {}).get("fields", [])
+    ni = next((i for i, x in enumerate(st) if x["name"] == "name"), None)
+    for blk, t in finds:
+        dd = describe(prog, g1, t["args"][-1])
+        for y in c17._nodes(dd):
+            if y[0] == "closure" and y[1] in prog.bodies:
+                cb = prog.bodies[y[1]]
+                stored = lambda body, d: (not desc_contains(d, lambda z: z[0] == "upvar")) and desc_contains(d, lambda z: z[0] == "field" and z[2] == ni and z[1][0] == "param" and "Cookie" in (body.local_ty(z[1][1]) or ""))
+                pres = lambda body, d: desc_contains(d, lambda z: z[0] == "upvar") and not stored(body, d)
+                ok, why = c17.implies_equality(prog, cb, 0, stored, pres)
+                chk.ob("R7.cookie_lookup", g1.path, "a cookie matches only if its name == the requested name (whole-string equality)", ok, why, where=f"{cb.file}:{cb.line}", cfg=cfg)
+
+
 def address(chk, prog, cfg):
     fn = "humphrey::http::address::Address::from_headers"
     b = prog.bodies.get(fn)
@@ -271,3 +321,4 @@ def run(chk):
         shared.header_order(chk, prog, "R3", cfg=cfg)
         reads(chk, prog, cfg)
         address(chk, prog, cfg)
+        cookies(chk, prog, cfg)
